@@ -47,7 +47,10 @@ def gen_w(rng, nmax=10000):
         scale = 10.0 ** rng.uniform(-250, -160)        # squares of the raw weights underflow
     elif kind not in ("huge-range",) and r < 0.12:
         scale = 10.0 ** rng.uniform(150, 250)          # squares of the raw weights overflow
-    return w * scale, kind
+    ws = w * scale
+    if not np.any(ws > 0) or not np.all(np.isfinite(ws)) or not np.isfinite(float(np.sum(ws))):
+        ws = w          # the rescaling underflowed every weight to zero (or overflowed the sum): outside "positive finite sum"
+    return ws, kind
 
 
 def check_ess(w, kind):
